@@ -26,6 +26,11 @@ META = {
         text="factgen regenerates the set of fs.FS methods and os/syscall functions reachable from the pack, scan and mirror paths; a Lean theorem states that every one of them is a read-only operation of the filesystem model. The rt stream snapshots the source tree (content hash, mode, uid, gid, mtime ns) before and after every pack and the source warehouses around scan/unpack/mirror.",
         note="Trusted: Lean kernel; factgen's call-graph extraction (static, intra-repo); the kernel.",
     ),
+    "C03": dict(
+        technique="Lean 4 theorems on the models of wrapUnpacker / CreateMirror + differential correspondence on altered wares",
+        text="C03_unpack (success implies the recomputed prefilter hash equals the requested id), C03_mismatch (parses but differs => exactly hash-mismatch), C03_corrupt_never_ok, C03_mirror (Commit only after a matching scan) are proved for every header list, filter, filesystem and hash function. The model is compared with the real Unpack and Mirror on wares altered after they were stored.",
+        note="Trusted: Lean kernel; archive/tar + gzip decoding (the harness decodes the altered bytes for the model); the fetch stream.",
+    ),
     "C12": dict(
         technique="Lean 4 theorems (filter = documented per-attribute rule; pack with filter = lossless pack of filtered fileset) + differential correspondence",
         text="C12_pack_entry / C12_reject_iff / C12_only_named / C12_flatten / C12_pack / C12_cli_stack are proved for every filter setting and every entry (no enumeration). The Lean filter functions are compared with filters.Apply*Filter on all complete settings x an entry zoo, and end to end through unpackTar.",
